@@ -125,11 +125,19 @@ func TestB2C12Codec(t *testing.T) {
 			}
 		}
 	}
+	// many lead bytes with distinct trail ranges: a lookup tree of more than 64 nodes
+	var many CodeSpaceRange
+	for i := 0; i < 30; i++ {
+		many = append(many, Range{Low: []byte{byte(0x81 + i), byte(0x40 + i)}, High: []byte{byte(0x81 + i), byte(0x50 + 2*i)}})
+	}
+	sets = append(sets, many, append(CodeSpaceRange{{[]byte{0x00}, []byte{0x7f}}}, many...))
+	// only 4-byte codes
+	sets = append(sets, CodeSpaceRange{{[]byte{0x00, 0x00, 0x00, 0x00}, []byte{0x10, 0xff, 0xff, 0xff}}}, CodeSpaceRange{{[]byte{0x20, 0x20, 0x20, 0x20}, []byte{0x7e, 0x7e, 0x7e, 0x7e}}})
 	sets = append(sets, UTF8, UCS2, Simple,
 		CodeSpaceRange{{[]byte{0x00, 0x00}, []byte{0x00, 0x7f}}, {[]byte{0x01, 0x10}, []byte{0x01, 0x7f}}},
 		CodeSpaceRange{{[]byte{0x00}, []byte{0x80}}, {[]byte{0x81, 0x40}, []byte{0x9f, 0xfc}}, {[]byte{0xa0}, []byte{0xdf}}, {[]byte{0xe0, 0x40}, []byte{0xfc, 0xfc}}})
 	cases := 0
-	probes := []byte{0x00, 0x01, 0x02, 0x05, 0x0f, 0x10, 0x7e, 0x7f, 0x80, 0x81, 0xfd, 0xfe, 0xff}
+	probes := []byte{0x00, 0x01, 0x02, 0x05, 0x0f, 0x10, 0x7e, 0x7f, 0x80, 0x81, 0xfd, 0xfe, 0xff, 0x8b, 0x4a, 0x9e, 0x21}
 	for _, csr := range sets {
 		codec, err := NewCodec(csr)
 		if err != nil {
@@ -169,6 +177,10 @@ func TestB2C12Codec(t *testing.T) {
 			depth = 3
 		}
 		build(nil, depth)
+		// full-length probes for the longest codes (the enumeration above stops at 3 bytes in
+		// the quick tier)
+		seqs = append(seqs, []byte{0x01, 0x02, 0x03, 0x04}, []byte{0x80, 0x11, 0x22, 0x33}, []byte{0x80, 0x20, 0x20, 0x20, 0x20}, []byte{0xff, 0xfe, 0xfd, 0xfc, 0xfb},
+			[]byte{0x00, 0x7f, 0x80, 0x01}, []byte{0x8b, 0x4a, 0x00}, []byte{0x9e, 0x21, 0x7f, 0x00})
 		for _, s := range seqs {
 			cases++
 			wantN, wantValid := specDecode(csr, s)
@@ -202,8 +214,14 @@ func TestB2C12Codec(t *testing.T) {
 				continue
 			}
 			back := codec.AppendCode(nil, code)
-			if valid && !bytes.Equal(back, s[:n]) {
-				t.Errorf("B2-FAIL reencode ranges=%v input=%x code=%x: %x", fmtCSR(csr), s, code, back)
+			longest := 0
+			for _, r := range csr {
+				longest = max(longest, len(r.Low))
+			}
+			if (valid || len(s) >= longest) && !bytes.Equal(back, s[:n]) {
+				// decoding then re-encoding reproduces the consumed bytes, for valid codes and for
+				// invalid ones that were not cut short by the end of the input
+				t.Errorf("B2-FAIL reencode ranges=%v input=%x code=%x valid=%v: %x", fmtCSR(csr), s, code, valid, back)
 			}
 			if valid {
 				c2, n2, v2 := codec.Decode(back)
